@@ -20,3 +20,8 @@ def run(tier, seed):
     return run_container("C05", "dir", tier, seed, res=res, do_explore=False, queries=False,
                          plan={"derive": ("sub", p)}, own_ops=OPS, always_own=("other_objects_untouched",),
                          scale=0.5 if tier == "quick" else 1.0)
+
+
+def replay(path):
+    from checks.containers import replay_container
+    return replay_container("C05", path)
